@@ -39,7 +39,7 @@ func campaignCases(which string, env vk.Env) []vk.Case {
 		}
 	}
 	for _, p := range cmpProtos {
-		parts := env.Pick(3, 24)
+		parts := env.Pick(3, 12)
 		for part := 0; part < parts; part++ {
 			p, part := p, part
 			pos := part % 3
